@@ -227,10 +227,17 @@ class StackRig:
         finally:
             zigpy.serial.create_serial_connection = orig
         if boot_rstack is not None:
-            when = 0.3 if boot_rstack[0] == "inwindow" else 1.2
+            # "early": the NCP announces its start-up reset as soon as the socket is open, before anybody waits for it
+            when = 0.0 if boot_rstack[0] == "early" else 0.3 if boot_rstack[0] == "inwindow" else 1.2
             self.peer.booting_until = when
             self.peer.boot_gap = 0.05 if boot_rstack[0].endswith("gap") else 0.0
-            self.loop.call_later(when, self.peer.boot, boot_rstack[1])
+            if boot_rstack[0] == "early":
+                self.note({"o": "ncpreset"})
+                self.peer.boot(boot_rstack[1])
+                for _ in range(20):
+                    await asyncio.sleep(0)
+            else:
+                self.loop.call_later(when, self.peer.boot, boot_rstack[1])
         return self.ezsp
 
     def _on_write(self, data: bytes):
